@@ -11,32 +11,34 @@ BASELINE = ("cd /repo && /venv/bin/python -m pytest -ra -q -p no:cacheprovider -
 
 COMMON_NOTE = ("Trusted base: CPython's ast parse of /repo/fim is the program; callees are resolved by class "
                "hierarchy + a frozen receiver table; third-party semantics (networkx, lxml, re, json, threading, the "
-               "Neo4j driver) are assumed from their documentation. Nothing under /repo is imported or run. ")
+               "Neo4j driver) are assumed from their documentation. Nothing under /repo is imported or run. Rules work on "
+               "normalised syntax (private helpers inlined, alias temporaries expanded, canonical tests, loop/comprehension "
+               "builders in one form), so behaviour-preserving rewrites do not change verdicts. ")
 
 P = {
  'C01': dict(
     technique='AST wiring rules over the serialization pipeline (format dispatch, must-pass-through, def-use of the graph id, copy completeness)',
-    text='Decides structural necessary conditions of the round trip: every serialisable format has a reader in READ_FORMATS and a branch in serialize_graph; the GraphML producers pass through the label-markup step whose two loops set label/labels on every element; the four import entry points reach one reader and a store insert whose graph id is the id the returned handle is built with; add_graph stamps GraphID on every node after the NodeID check and replaces an existing graph of that id found in the store; extract_graph copies node and edge data; identity properties are stamped at creation. Value fidelity through networkx/lxml is not decided.',
+    text='Decides structural necessary conditions of the round trip: every serialisable format has a reader in READ_FORMATS and a branch in serialize_graph; the GraphML producers pass through the label-markup step whose two loops set label/labels on every element; the four import entry points reach one reader and a store insert whose graph id is the id the returned handle is built with; add_graph stamps GraphID on every node after the NodeID check and replaces an existing graph of that id found in the store; extract_graph copies node and edge data; identity properties are stamped at creation. Value fidelity through networkx/lxml is not decided. Also decided: value flow (CFG taint) of GraphML text through the label markup, the GraphML writer is not switched to options the default reader cannot undo, and every constant the library itself stores in a JSON-typed property is skipped by graph validation (guard partially evaluated on the constant).',
     ref='3 C01'),
  'C02': dict(
     technique='table-agreement analysis: writer/reader/setter/unset-map rows extracted from the AST and compared per sliver class; codec pairing; dispatch agreement',
-    text='Decides that for every sliver class the set of properties written to the graph equals the set read back, that each row uses matching encode/decode codecs and the same graph property constant, that every settable stored property has an unset mapping, that each model element class uses the writer/reader of its own kind, and that deep-dictionary child keys agree and recurse. Field-wise value equality is not decided.',
+    text='Decides that for every sliver class the set of properties written to the graph equals the set read back, that each row uses matching encode/decode codecs and the same graph property constant, that every settable stored property has an unset mapping, that each model element class uses the writer/reader of its own kind, and that deep-dictionary child keys agree and recurse. Field-wise value equality is not decided. Also decided: the deep graph writers store the children of a sliver under no condition other than the sliver having that container.',
     ref='3 C02'),
  'C03': dict(
     technique='abstract-domain check of encoder drop predicates against admitted field types and defaults; guard dominance on the CFG; purity (no store through the input); None-dereference check of encoders',
-    text='Decides: no codec drops a legitimate non-default value (drop predicate vs admitted types vs constructor defaults), forgiving decode keeps processing after an unknown key, copy-with-changes never stores through its input and builds a fresh object, every mutator of a maintenance record is dominated by the finalized guard and copies do not alias the node table, to_json of a fresh value does not dereference None, encoder/decoder representations of flag-like fields agree. x == decode(encode(x)) over the value domain is not decided.',
+    text='Decides: no codec drops a legitimate non-default value (drop predicate vs admitted types vs constructor defaults), forgiving decode keeps processing after an unknown key, copy-with-changes never stores through its input and builds a fresh object, every mutator of a maintenance record is dominated by the finalized guard and copies do not alias the node table, to_json of a fresh value does not dereference None, encoder/decoder representations of flag-like fields agree. x == decode(encode(x)) over the value domain is not decided. Also decided: the unknown-field handler sits inside the per-field loop, and every key a dict decoder reads reaches the state of the decoded object (constructor argument or attribute), not only a branch condition.',
     ref='3 C03'),
  'C04': dict(
     technique='query-scope analysis (every node enumeration carries a GraphID conjunct), def-use of internal ids for writes, allocator monotonicity, whole-store operation who-may-call',
-    text='Decides that every enumeration of the shared store is scoped by the graph id, every node-addressed write uses an internal id obtained from a scoped lookup, the id allocators only advance by the number of inserted nodes and inserts happen after validation, clone goes extract(copy)->add, and whole-store operations are confined to the storage classes. The frame condition over histories is not decided.',
+    text='Decides that every enumeration of the shared store is scoped by the graph id, every node-addressed write uses an internal id obtained from a scoped lookup, the id allocators only advance by the number of inserted nodes and inserts happen after validation, clone goes extract(copy)->add, and whole-store operations are confined to the storage classes. The frame condition over histories is not decided. Also decided: the one-graph-per-store flavour may skip an import only when a non-empty graph is stored under the id (delete / probe then re-import).',
     ref='3 C04'),
  'C05': dict(
     technique='guard-dominance on the CFG for identity properties; key-set comparison of insertion guard vs lookup; override/signature inventory of sibling backends; def-use in merge policy loop',
-    text='Decides that every public mutator of a node/link property is dominated by the Class guard and unset by the NO_UNSET guard, that the insertion guard key is a subset of the lookup key (node id unique whatever the class), that the disjoint backend overrides only what it documents and the two storage classes agree on signatures, that internal ids are allocated from a monotone counter in both stores, and that the merge policy loop ranges over the caller\'s properties. Lock-step equivalence with a reference model is not decided.',
+    text='Decides that every public mutator of a node/link property is dominated by the Class guard and unset by the NO_UNSET guard, that the insertion guard key is a subset of the lookup key (node id unique whatever the class), that the disjoint backend overrides only what it documents and the two storage classes agree on signatures, that internal ids are allocated from a monotone counter in both stores, and that the merge policy loop ranges over the caller\'s properties. Lock-step equivalence with a reference model is not decided. Also decided: no explicit rejection is reachable after a property write in a mutator (a rejected call changes nothing), the merge policy by path-sensitive evaluation of the loop body whatever its branching style, and store scoping shared with C04.',
     ref='3 C05'),
  'C06': dict(
     technique='filter-loop integrity, mutation-under-iteration detection, copy provenance of filtered graphs, exception-scope of lazy generators',
-    text='Decides: each drop-list filter appends its own loop variable; no collection is mutated while its live view is iterated; relation/label filtering and edge dropping operate on a copy returned by extract_graph (and extract_graph returns a copy in both stores); NetworkXNoPath raised by lazy path generators is consumed inside the guarded region; helper traversals use schema pairs. Exactness over all graphs is not decided.',
+    text='Decides: each drop-list filter appends its own loop variable; no collection is mutated while its live view is iterated; relation/label filtering and edge dropping operate on a copy returned by extract_graph (and extract_graph returns a copy in both stores); NetworkXNoPath raised by lazy path generators is consumed inside the guarded region; helper traversals use schema pairs. Exactness over all graphs is not decided. Also decided: a drop list is emptied where its filter loop starts when that loop runs once per iteration of an enclosing loop.',
     ref='3 C06'),
  'C07': dict(
     technique='vocabulary agreement between enums and the rule file; containment-schema extraction and agreement; guard dominance for uniqueness; cache-update pairing; loop-index discipline; view immutability',
@@ -48,27 +50,27 @@ P = {
     ref='3 C08'),
  'C09': dict(
     technique='validate-before-mutate ordering over constructor CFGs with a MUT/REJ call-graph summary; handler-breadth check of the rollback; eager evaluation of arguments consumed after the first mutation',
-    text='Decides that in the five element constructors no rejecting statement is reachable after the first graph mutation outside a compensated try, that the rollback handler covers every exception class the guarded body can raise and undoes each creation step, that uniqueness checks dominate inserts, and reports composite operations without compensation (known findings). Atomicity for rejections that depend on stored ids is not decided.',
+    text='Decides that in the five element constructors no rejecting statement is reachable after the first graph mutation outside a compensated try, that the rollback handler covers every exception class the guarded body can raise and undoes each creation step, that uniqueness checks dominate inserts, and reports composite operations without compensation (known findings). Atomicity for rejections that depend on stored ids is not decided. Also decided: the creation step that receives the caller\'s **kwargs is the first creation step of a composite (or compensated), and a rollback handler that removes id X does not also guard the call that creates X.',
     ref='3 C09'),
  'C10': dict(
     technique='constraint-table exhaustiveness over enums, name resolution of listed properties against getters and readers, comparator normalisation per column, must-pass-through of guardrails, dead-comparison detection',
-    text='Decides that each constraint table has a row per enum member, that every listed property resolves to a populated getter, that every column is consulted with the right comparator behind the NO_LIMIT test, that every connect path passes the guardrails, that required-property tests reject unset values, and that the declared-site check compares against the inferred site. Accept/reject outcomes over the parameter product are not decided.',
+    text='Decides that each constraint table has a row per enum member, that every listed property resolves to a populated getter, that every column is consulted with the right comparator behind the NO_LIMIT test, that every connect path passes the guardrails, that required-property tests reject unset values, and that the declared-site check compares against the inferred site. Accept/reject outcomes over the parameter product are not decided. Also decided: the site limit is compared with the complete set of sites (after the collecting loop, or inside it after the current site is added).',
     ref='3 C10'),
  'C11': dict(
     technique='append/pop pairing by dominance, attribute-table agreement, dispatch LUT exhaustiveness, def-before-use ordering of the in-slice port set, unconditional tally increments',
-    text='Decides that no attribute list is popped without a dominating append, that every attribute id stored resolves to a typed category of the request skeleton, that dispatch tables name existing collectors, that the in-slice port set is complete before any service is visited, that the collectors read the documented fields, and that tally counters are incremented on every path of their type branch. Completeness against a concrete slice is not decided.',
+    text='Decides that no attribute list is popped without a dominating append, that every attribute id stored resolves to a typed category of the request skeleton, that dispatch tables name existing collectors, that the in-slice port set is complete before any service is visited, that the collectors read the documented fields, and that tally counters are incremented on every path of their type branch. Completeness against a concrete slice is not decided. Also decided: contributions are extracted path-sensitively with Boolean-minimised conditions, each resource field is recorded under conditions on that field only, and a per-element collector never overwrites a request-wide attribute with element-dependent values.',
     ref='3 C11'),
  'C12': dict(
     technique='guard dominance for delegation field writes, key-constant agreement of encoder/decoder, loop-carried guard state, index rebuild discipline',
-    text='Decides that delegation details and the delegations table are only written behind their type/format/duplicate guards evaluated against live state, that to_json/from_json use the same keys for all three formats, that pool regrouping writes and reads the same fields and rebuilds its index from scratch, and that conflict checks precede graph writes. The identity pools->delegations->pools over all families is not decided.',
+    text='Decides that delegation details and the delegations table are only written behind their type/format/duplicate guards evaluated against live state, that to_json/from_json use the same keys for all three formats, that pool regrouping writes and reads the same fields and rebuilds its index from scratch, and that conflict checks precede graph writes. The identity pools->delegations->pools over all families is not decided. Also decided: encoder and decoder as (format, type) tables from path-sensitive evaluation; every field of a decoded entry is determined within its own loop iteration.',
     ref='3 C12'),
  'C13': dict(
     technique='receiver analysis (mutations only on the clone), loop-range coverage, monotone keep-set construction, schema agreement of traces, partial-callee precondition, flag-scope analysis',
-    text='Decides that partitioning mutates only the clones, that the delegation rewrite ranges over all nodes and both types unconditionally of the keep set, that stitch nodes seed every keep set which afterwards only grows, that the connection-point traces use schema pairs and cover link, peer, service and owners, that unset is only called when the property is present, and that re-keying writes back whenever any property changed. Sub-model equality is not decided.',
+    text='Decides that partitioning mutates only the clones, that the delegation rewrite ranges over all nodes and both types unconditionally of the keep set, that stitch nodes seed every keep set which afterwards only grows, that the connection-point traces use schema pairs and cover link, peer, service and owners, that unset is only called when the property is present, and that re-keying writes back whenever any property changed. Sub-model equality is not decided. Also decided: collections initialised empty and read after a loop are accumulated, not reassigned, inside it; the delegation codec the rewrite relies on (shared with C12).',
     ref='3 C13'),
  'C14': dict(
     technique='receiver analysis (sources never mutated), key agreement across the three uses of the contributing id, written-vs-undone property sets, ordering of rollback steps, flag-scope analysis, fresh-id-per-call',
-    text='Decides that merge mutates only the temporary clone and the combined model, that delegations/structural info/contributor lists are keyed by the real model id, that properties written by merge are handled by unmerge, that rollback deletes before re-homing, that snapshot ids are generated per call, that the one-side-speaks guard precedes the write and the write-back flag covers both delegation kinds. Order independence and merge/unmerge inversion as algebra are not decided.',
+    text='Decides that merge mutates only the temporary clone and the combined model, that delegations/structural info/contributor lists are keyed by the real model id, that properties written by merge are handled by unmerge, that rollback deletes before re-homing, that snapshot ids are generated per call, that the one-side-speaks guard precedes the write and the write-back flag covers both delegation kinds. Order independence and merge/unmerge inversion as algebra are not decided. Also decided: what is merged in is the re-keyed temporary clone, never the source; what unmerge writes when a node\'s last delegation goes is a value the decoder reads back as absent.',
     ref='3 C14'),
  'C15': dict(
     technique='structural premises of point-wise integer arithmetic checked on the AST (operator lifts, operand purity, comparator mirror, truthiness-free equality); the algebraic laws follow by a stated lemma',
@@ -76,11 +78,11 @@ P = {
     ref='3 C15'),
  'C16': dict(
     technique='regex-application analysis (full-match semantics per call site), regex AST hygiene via re._parser, entry-point reachability of validators, measured-quantity agreement of size checks',
-    text='Decides that every validator pattern is applied with full-match semantics, that validator patterns contain no unescaped wildcard and match their documented example, that constructor/update/from_json reach the validator before the store and `forgiving` never weakens validation, that validator tables are keyed by declared fields, and that size/validity tests precede the store and measure the stored encoding. Membership of a concrete string in a format is not decided.',
+    text='Decides that every validator pattern is applied with full-match semantics, that validator patterns contain no unescaped wildcard and match their documented example, that constructor/update/from_json reach the validator before the store and `forgiving` never weakens validation, that validator tables are keyed by declared fields, and that size/validity tests precede the store and measure the stored encoding. Membership of a concrete string in a format is not decided. Also decided: range validators order numeric values only; validation-before-store by CFG dominance / path conditions on helper-inlined bodies.',
     ref='3 C16'),
  'C17': dict(
     technique='mirrored-argument analysis of the diff helpers, value-equality resolution of compared types, case completeness, flag accumulation (|= not =)',
-    text='Decides that each _dict_diff/_dict_common call compares the same attribute path rooted at self and at the other sliver, that every type compared by prop_diff defines value equality on decoded values, that the three one-sided cases exist per container, that result keys agree and flags are accumulated rather than overwritten. Exactness over all edit scripts is not decided.',
+    text='Decides that each _dict_diff/_dict_common call compares the same attribute path rooted at self and at the other sliver, that every type compared by prop_diff defines value equality on decoded values, that the three one-sided cases exist per container, that result keys agree and flags are accumulated rather than overwritten. Exactness over all edit scripts is not decided. Also decided: the elements handed to prop_diff range over all common elements; equality of the compared field containers ranges over every field of the left value.',
     ref='3 C17'),
  'C18': dict(
     technique='data lints over the two catalogue files analysed as source; AST shape of the sufficiency predicate, ordering step and fallback; loop-index discipline and kind dispatch in generate_component',
@@ -92,7 +94,7 @@ P = {
     ref='3 C19'),
  'C20': dict(
     technique='abstract lock-depth dataflow over a CFG with exceptional edges; lockset analysis of allocator and structure accesses; lock-held call discipline',
-    text='Decides completely that every storage method releases the lock exactly once on every normal, early-return and exceptional path, never re-acquires it while held, touches the id allocators and the graph structure only with the lock held, and creates the singleton under a lock; by mutual exclusion no identifier is issued twice and no insert under the lock is lost. Outcomes of interleavings of the unlocked graph-level operations are not decided.',
+    text='Decides completely that every storage method releases the lock exactly once on every normal, early-return and exceptional path, never re-acquires it while held, touches the id allocators and the graph structure only with the lock held, and creates the singleton under a lock; by mutual exclusion no identifier is issued twice and no insert under the lock is lost. Outcomes of interleavings of the unlocked graph-level operations are not decided. Also decided: the existence test of the storage singleton is evaluated under the creation lock.',
     ref='3 C20'),
 }
 
